@@ -39,7 +39,7 @@
 //! (DELETE after insert_batch; any INSERT statement after bulk_insert) the same case is run once more
 //! with those steps left out (`skip`), so that the steps behind them are compared too.
 //!
-//! Enumeration (simplest first, `ctx.mine(i)` on the case number): EVERY sequence of <= L rows over
+//! Enumeration (simplest first; one worker owns an (api, kind, placement) group): EVERY sequence of <= L rows over
 //! the row alphabet {(1,10),(2,20),(2,21),(NULL,30),(1,NULL)} (duplicate keys inside the batch, with
 //! the pre rows, NULL key, NULL value) x placement x table kind x API (L = 1 quick / 3 thorough; one
 //! row more without the dimensions that repeat a covered code path: reopening placements, BIGINT key,
@@ -888,21 +888,23 @@ struct Shrinker<'a> {
     scratch: &'a Path,
     plant: Plant,
     sizes: Vec<usize>,
-    cache: BTreeMap<Case, Option<(&'static str, String)>>,
+    cache: BTreeMap<Case, Option<Viol>>,
     runs: u64,
 }
 impl<'a> Shrinker<'a> {
     fn probe(&mut self, c: &Case) -> Option<(&'static str, String)> {
+        self.probe_full(c).map(|v| (v.step, v.layer))
+    }
+    fn probe_full(&mut self, c: &Case) -> Option<Viol> {
         if let Some(r) = self.cache.get(c) {
             return r.clone();
         }
         self.runs += 1;
         let o = run_case(self.scratch, c, self.plant);
-        let r = o.viol.map(|v| (v.step, v.layer));
         if self.cache.len() < 200_000 {
-            self.cache.insert(c.clone(), r.clone());
+            self.cache.insert(c.clone(), o.viol.clone());
         }
-        r
+        o.viol
     }
     fn candidates(&self, c: &Case) -> Vec<Case> {
         let mut v = vec![];
@@ -1090,12 +1092,12 @@ fn enumerate(ctx: &Ctx) -> Vec<Case> {
 }
 
 /// shrink, re-run the minimal case for its own expected/observed texts, record the violation
-fn report(sh: &mut Shrinker, ctx: &Ctx, c: &Case, v: &Viol, szs: &[usize], plant: Plant, rep: &mut Reporter) {
+fn report(sh: &mut Shrinker, c: &Case, v: &Viol, szs: &[usize], rep: &mut Reporter) {
     let min = sh.shrink(c, v);
     let (mc, mv) = if &min == c {
         (c.clone(), v.clone())
     } else {
-        match run_case(&ctx.scratch, &min, plant).viol {
+        match sh.probe_full(&min) {
             Some(mv) if mv.step == v.step && mv.layer == v.layer => (min, mv),
             _ => (c.clone(), v.clone()),
         }
@@ -1137,10 +1139,10 @@ impl Check for C43 {
         }
         if ctx.opt("dry").is_some() {
             // sizing aid: count the cases only
-            let n = (0..cases.len()).filter(|i| ctx.mine(*i as u64)).count() as u64;
+            let n = cases.iter().filter(|c| ctx.mine(vcore::util::hash_of(&(c.api, c.kind, c.pre)) >> 8)).count() as u64;
             rep.bulk(n, 0);
-            for (i, c) in cases.iter().enumerate() {
-                if ctx.mine(i as u64) {
+            for c in cases.iter() {
+                if ctx.mine(vcore::util::hash_of(&(c.api, c.kind, c.pre)) >> 8) {
                     rep.count(&format!("dry:{}", match &c.batch { BatchSpec::Explicit(b) => format!("explicit-len{}", b.len()), BatchSpec::Gen { n, .. } => format!("gen-{n}") }), 1);
                 }
             }
@@ -1148,7 +1150,9 @@ impl Check for C43 {
         }
         let mut sh = Shrinker { scratch: &ctx.scratch, plant, sizes: szs.clone(), cache: BTreeMap::new(), runs: 0 };
         for (i, c) in cases.iter().enumerate() {
-            if !ctx.mine(i as u64) {
+            // one worker owns all cases of an (api, kind, placement) group: its shrink cache then answers most
+            // minimisation probes (the explored set does not depend on the partition)
+            if !ctx.mine(vcore::util::hash_of(&(c.api, c.kind, c.pre)) >> 8) {
                 continue;
             }
             if ctx.expired() {
@@ -1196,7 +1200,7 @@ impl Check for C43 {
                         rep.note(&format!("harness problem: {} / {}", v.expected, v.observed));
                         continue;
                     }
-                    report(&mut sh, ctx, c, v, &szs, plant, rep);
+                    report(&mut sh, c, v, &szs, rep);
                     // the divergence is one of the known step-level defects of this API: look behind it
                     if c.api.skipped().contains(&v.step) {
                         let c2 = Case { skip: true, ..c.clone() };
@@ -1214,7 +1218,7 @@ impl Check for C43 {
                             }
                             Some(v2) if v2.layer != "harness" => {
                                 rep.outcome(&format!("{}/{}: second look differs at {} ({})", c.api.name(), c.kind.name(), v2.step, v2.layer));
-                                report(&mut sh, ctx, &c2, v2, &szs, plant, rep);
+                                report(&mut sh, &c2, v2, &szs, rep);
                             }
                             _ => {}
                         }
